@@ -130,6 +130,8 @@ def prelude(n_families=None):
         struct("U", [field("s", "string")]),
         struct("K", [chunked([field("s", "string"), brk(), field("t", "char")])]),
         struct("O", [field("a", "char"), field("b", "char", optional="true")]),
+        struct("W", [field("p", "P"), field("v", "V"), field("e", "E2:char")]),
+        struct("KK", [chunked([field("k", "K"), brk(), field("n", "char")])]),
         struct("F", [field("tag", "string", length="2", padded="true"), field("e", "E1"), field("inner", "P"), array("xs", "char", length="2")]),
     ]
 
@@ -188,7 +190,7 @@ def leaf_templates():
 
     for typ in ("byte", "char", "short", "three", "int", "bool", "bool:short", "E1", "E1:short", "E2", "E3"):
         one(f"int:{typ}", "integers", lambda n, typ=typ: field(n, typ))
-    for s in ("P", "V", "U", "K", "O", "F"):
+    for s in ("P", "V", "U", "K", "O", "F", "W", "KK"):
         one(f"struct:{s}", "structs", lambda n, s=s: field(n, s))
     one("str", "strings", lambda n: field(n, "string"))
     one("estr", "strings", lambda n: field(n, "encoded_string"))
@@ -230,6 +232,8 @@ def leaf_templates():
     pair("len:darrU-nt", lambda nm: (lambda l: [length(l, "char"), array(nm(), "U", length=l, delimited="true", trailing_delimiter="false")])(nm()))
     pair("optlen:str", lambda nm: (lambda l: [length(l, "char", optional="true"), field(nm(), "string", length=l, optional="true")])(nm()))
     pair("optlen:arr", lambda nm: (lambda l: [length(l, "char", optional="true"), array(nm(), "short", length=l, optional="true")])(nm()))
+    pair("len:str:pad", lambda nm: (lambda l: [length(l, "char"), field(nm(), "string", length=l, padded="true")])(nm()))
+    pair("len:three", lambda nm: (lambda l: [length(l, "three", offset="2"), field(nm(), "encoded_string", length=l)])(nm()))
     t.append(_T("len:sep", 3, lambda nm: (lambda l: [length(l, "char"), field(nm(), "short"), field(nm(), "string", length=l)])(nm()), "length pairs"))
     # arrays
     one("arr:char", "arrays", lambda n: array(n, "char"))
@@ -242,6 +246,11 @@ def leaf_templates():
         one(f"darr:{el}", "arrays", lambda n, el=el: array(n, el, delimited="true"))
         one(f"darr:{el}:t", "arrays", lambda n, el=el: array(n, el, delimited="true", trailing_delimiter="true"))
         one(f"darr:{el}:nt", "arrays", lambda n, el=el: array(n, el, delimited="true", trailing_delimiter="false"))
+    one("darr:str", "arrays", lambda n: array(n, "string", delimited="true"))
+    one("darr:estr:nt", "arrays", lambda n: array(n, "encoded_string", delimited="true", trailing_delimiter="false"))
+    one("darr:KK", "arrays", lambda n: array(n, "KK", delimited="true"))
+    one("arr:bool", "arrays", lambda n: array(n, "bool:short"))
+    one("arr:W", "arrays", lambda n: array(n, "W"))
     one("darr:U2", "arrays", lambda n: array(n, "U", delimited="true", length="2"))
     one("darr:U2:nt", "arrays", lambda n: array(n, "U", delimited="true", length="2", trailing_delimiter="false"))
     # dummy, framing
@@ -262,7 +271,7 @@ NEST_IDS = ("str", "int:char")
 HOISTED_CHAR = (("char", "1", "2"), ("char", "1", "2", "hoist"))
 
 SWITCH_SHAPES = ("one", "two", "case+default", "empty+default")
-SWITCH_ON = (("char", "1", "2"), ("E1", "A", "B"), ("E2", "Big", "7"))
+SWITCH_ON = (("char", "1", "2"), ("E1", "A", "B"), ("E2", "Big", "7"), ("byte", "1", "255"), ("E1:short", "A", "9"), ("three", "0", "64009"))
 
 
 def _seqs(items, budget, max_items=None):
